@@ -130,6 +130,38 @@ def obsOf (w : World) (ret : Ret) (net : List NetAct) : Obs :=
       | none => none
       | some p => some ((sortNats (p.arts.map (·.1)).eraseDups).filterMap (fun n => (p.arts.lookup n).map (n, ·)), p.junk) }
 
+/-- Names of the observation fields in which two observations differ. -/
+def diffFields (a b : Obs) : List String :=
+  (if a.ret != b.ret then ["ret"] else []) ++
+  (if a.net != b.net then ["net"] else []) ++
+  (if (match a.sj, b.sj with
+        | .ok x, .ok y => x.version != y.version
+        | .missing, .missing => false
+        | .garbage, .garbage => false
+        | _, _ => true) then ["sj"] else []) ++
+  (if (match a.sj, b.sj with
+        | .ok x, .ok y => x.events != y.events
+        | _, _ => false) then ["sje"] else []) ++
+  (if (match a.pj, b.pj with
+        | .ok x, .ok y => x.last != y.last || x.next != y.next || x.booting != y.booting || sortNats x.bad != sortNats y.bad
+        | .missing, .missing => false
+        | .garbage, .garbage => false
+        | _, _ => true) then ["pj"] else []) ++
+  (if (match a.pd, b.pd with
+        | some (x, _), some (y, _) => x != y
+        | none, none => false
+        | _, _ => true) then ["pd"] else []) ++
+  (if (match a.pd, b.pd with
+        | some (_, x), some (_, y) => sortStrs x != sortStrs y
+        | _, _ => false) then ["junk"] else [])
+
+/-- The storage directory an observation shows. -/
+def diskOfObs (o : Obs) : Disk :=
+  { stateJson := o.sj, patchesJson := o.pj,
+    patches := match o.pd with
+      | none => none
+      | some (arts, junk) => some { arts := arts, junk := junk } }
+
 /-! ### parsing -/
 
 def parseMeta (s : String) : Option Meta :=
